@@ -29,7 +29,7 @@ func TestC09(t *testing.T) {
 			"(ok, error, requeue with/without error, skip, panic), concurrency 1-4, writes landing during processing and during back-off. distinct = step-trace hash; non-trivial = the sequence " +
 			"contained a Put on a held key, a Requeue overtaken by a fresh Put, and a delivery that had to wait for its ready time")
 		c.Assume("order among several ready items is not judged (the statement gives none)")
-		c.Require("puts_on_held_key", "requeues", "requeue_overtaken_by_put", "deliveries", "deliveries_after_wait", "len_checks", "fullstack_scenarios", "fullstack_requeue_gaps_checked", "fullstack_put_during_processing")
+		c.Require("puts_on_held_key", "requeues", "requeue_overtaken_by_put", "deliveries", "deliveries_after_wait", "len_checks", "fullstack_scenarios", "fullstack_requeue_gaps_checked", "fullstack_put_during_processing", "backoff_streaks_checked")
 
 		n := c.N(3000, 300000)
 
@@ -68,7 +68,127 @@ func TestC09(t *testing.T) {
 		}
 
 		wg.Wait()
+
+		// back-off streaks: growth over 8 consecutive failures, reset by every kind of successful reconcile
+		for k := 0; k < c.N(90, 6000); k++ {
+			wg.Add(1)
+			sem <- struct{}{}
+
+			go func() {
+				defer wg.Done()
+				defer func() { <-sem }()
+
+				rng := rand.New(rand.NewPCG(uint64(c.Seed), uint64(9_000_000+k)))
+				synctest.Test(t, func(*testing.T) { backoffStreak(c, rng, k) })
+			}()
+		}
+
+		wg.Wait()
 	})
+}
+
+// backoffStreak: item x fails 8 times in a row (error / panic; an explicit requeue interval would replace the back-off), then one successful reconcile of a seeded kind
+// (plain ok, skip, or ok-with-requeue-request), then fails again. Constant-free judgement: every retry gap of the streak is > 0, the 8th
+// is more than twice the 1st (growth), and the retry gap after the post-success failure is less than half the 8th (reset on success).
+func backoffStreak(c *vk.C, rng *rand.Rand, k int) {
+	kA := rtp.Kinds[0]
+	x := gp.Key{NS: kA.NS, Type: kA.Type, ID: "x"}
+
+	var outcomes []string
+
+	for i := 0; i < 8; i++ {
+		outcomes = append(outcomes, []string{"err", "err", "panic"}[rng.IntN(3)])
+	}
+
+	reqMS := 50 + rng.IntN(1500)
+	success := []string{"ok", "skip", fmt.Sprintf("requeue:%d", reqMS)}[k%3]
+	outcomes = append(outcomes, success, "err", "ok", "ok")
+
+	cfg := rtp.Cfg{MaxDelay: rng.IntN(3), QCtrls: []rtp.QCfg{{
+		Name: "Q", Inputs: []controller.Input{{Namespace: kA.NS, Type: kA.Type, Kind: controller.InputQPrimary}},
+		Concurrency: uint(1 + rng.IntN(3)), Outcomes: map[string][]string{"x": outcomes},
+	}}}
+
+	w, err := rtp.NewWorld(rng, cfg)
+	if err != nil {
+		c.Violation("world-setup-failed", err.Error())
+
+		return
+	}
+
+	ctx, cancel := context.WithCancel(context.Background())
+
+	_ = w.Write(ctx, rtp.WCreate, x, "")
+	w.Run(ctx)
+
+	// other items keep the queue busy meanwhile
+	for i := 0; i < 4; i++ {
+		_ = w.Write(ctx, rtp.WCreate, gp.Key{NS: kA.NS, Type: kA.Type, ID: []string{"y", "z"}[i%2] + fmt.Sprint(i)}, "")
+		rtp.Quiesce(time.Duration(rng.IntN(3000)) * time.Millisecond)
+	}
+
+	rtp.Quiesce(10 * time.Minute) // the streak and (for ok-with-requeue) the requested re-run are over
+
+	recs := func() []*rtp.Wake {
+		var out []*rtp.Wake
+
+		for _, wk := range w.Wakes() {
+			if wk.Kind == "reconcile" && wk.Target == x {
+				out = append(out, wk)
+			}
+		}
+
+		return out
+	}
+
+	// plain ok / skip schedule nothing: the next reconcile needs a fresh notification
+	for i := 0; i < 4 && len(recs()) < len(outcomes); i++ {
+		_ = w.Write(ctx, rtp.WUpdate, x, "")
+		rtp.Quiesce(10 * time.Minute)
+	}
+
+	rs := recs()
+
+	cancel()
+	w.WaitRun()
+	synctest.Wait()
+
+	if len(rs) < 11 {
+		c.Violation("failed-or-requeued-item-never-retried", map[string]any{"mode": "backoff-streak", "outcomes": outcomes, "reconciles": len(rs)})
+
+		return
+	}
+
+	var gaps []float64
+
+	for i := 0; i < 8; i++ {
+		gaps = append(gaps, rs[i+1].AtMS-rs[i].EndMS)
+	}
+
+	after := rs[10].AtMS - rs[9].EndMS // retry of the failure that follows the successful reconcile
+	detail := map[string]any{"mode": "backoff-streak", "outcomes": outcomes, "gaps_ms": gaps, "gap_after_success_then_failure_ms": after, "success_kind": success}
+
+	c.Count("backoff_streaks_checked", 1)
+	c.Count("backoff_reset_after_"+strings.SplitN(success, ":", 2)[0], 1)
+	c.Case(vk.Hash("bo", k, outcomes), true)
+
+	for i, g := range gaps {
+		if g <= 0 {
+			detail["index"] = i
+			c.Violation("retry-without-backoff", detail)
+
+			return
+		}
+	}
+
+	switch {
+	case gaps[7] <= 2*gaps[0]:
+		c.Violation("backoff-not-growing", detail)
+	case after >= gaps[7]/2:
+		c.Violation("backoff-not-reset-on-success", detail)
+	case after <= 0:
+		c.Violation("retry-without-backoff", detail)
+	}
 }
 
 type kstate struct {
